@@ -3,7 +3,7 @@ From Coq Require Import Reals.
 From Flocq Require Import Core.Core IEEE754.Binary IEEE754.Bits.
 From Dashu Require Import Base.Prelude Float.RoundSpec Float.RoundSpecProof Float.Contract Float.Model Float.ModelProof
   Int.IoSpec Float.TextIoSpec Float.TextIoModel Float.BaseConvProof Float.TextIoProof Float.SciProof Float.ParseProof Float.ParseSound Float.TextIoExamples
-  Conv.ConvSpec Conv.ConvModel Float.IeeeImportProof.
+  Conv.ConvSpec Conv.ConvModel Float.IeeeImportModel Float.IeeeImportProof Float.LargeExpBound Float.LargeExpRoute.
 From DashuGen Require Import RoundTables.
 Open Scope Z_scope.
 
@@ -158,6 +158,62 @@ Theorem C08_convert_small_neg : forall NB, 2 <= NB -> forall B p m s e, NB <> B 
   (p + dlen NB d < dlen NB n -> convert_base_asis B NB p m s e = div_long NB p m n ne d de).
 Proof. exact convert_small_neg. Qed.
 Print Assumptions C08_convert_small_neg.
+
+(** ** the large-exponent route (|exponent| > 38, bases not powers of one another): its STRUCTURE - work precision
+    2p, a = ln B, m = exponent * a, c = ln NB, Euclidean division (q, r), E = exp r, Y = significand * E * NB^q,
+    final rounding - with ln and exp as variables under an error contract (relative error at most kap = k units
+    in the last place of the work precision; u = one such unit for the correctly rounded steps).  The pre-rounded
+    result errs relatively by at most (1 + kap) * exp Theta - 1 with Theta <= kap * (3 ln NB + 5 |exponent| ln B) *)
+
+Theorem C08_large_route_relative_error : forall LB LN : R, (0 < LB)%R -> (0 < LN)%R ->
+  forall u kap : R, (0 <= u)%R -> (u <= kap)%R -> (kap <= 1 / 4)%R ->
+  forall e q a c m r E : R,
+  (Rabs (a - LB) <= kap * LB)%R -> (Rabs (c - LN) <= kap * LN)%R -> (Rabs (m - e * a) <= u * Rabs (e * a))%R ->
+  (0 <= m - q * c < c)%R -> (Rabs (r - (m - q * c)) <= u * (m - q * c))%R -> (Rabs (E - exp r) <= kap * exp r)%R ->
+  forall s : R,
+  (Rabs (s * E * exp (q * LN) - s * exp (e * LB)) <= ((1 + kap) * exp (Theta LB LN u kap e q a c) - 1) * Rabs (s * exp (e * LB)))%R /\
+  (Theta LB LN u kap e q a c <= kap * (3 * LN + 5 * Rabs e * LB))%R.
+Proof. exact route_relative_error_closed. Qed.
+Print Assumptions C08_large_route_relative_error.
+
+(** for integer bases, exponent and significand, with the bound in rational numbers (ln x <= log2_up x): inside
+    the domain 2 * tn <= D, 4k <= D (D = NB^(2p-1)) the answer Rf of the route satisfies
+    |Rf - s * B^e| <= (NB^(1-p) * (1 + eps) + eps) * |s * B^e|, eps = en / D^2 *)
+Theorem C08_convert_large_route_error : forall (rB rNB : radix) (p k e q s : Z) (a c m r E Rf : R),
+  let LB := ln (IZR rB) in let LN := ln (IZR rNB) in
+  let D := IZR (rNB ^ (2 * p - 1)) in let u := (/ D)%R in let kap := (IZR k * u)%R in
+  let tn := IZR (k * (3 * Z.log2_up rNB + 5 * Z.abs e * Z.log2_up rB)) in
+  let en := (IZR k * D + 2 * tn * D + 2 * IZR k * tn)%R in
+  1 <= k -> 1 <= p -> (2 * tn <= D)%R -> (4 * IZR k <= D)%R ->
+  (Rabs (a - LB) <= kap * LB)%R -> (Rabs (c - LN) <= kap * LN)%R ->
+  (Rabs (m - IZR e * a) <= u * Rabs (IZR e * a))%R ->
+  (0 <= m - IZR q * c < c)%R -> (Rabs (r - (m - IZR q * c)) <= u * (m - IZR q * c))%R ->
+  (Rabs (E - exp r) <= kap * exp r)%R ->
+  (Rabs (Rf - IZR s * E * bpow rNB q) <= bpow rNB (1 - p) * Rabs (IZR s * E * bpow rNB q))%R ->
+  (Rabs (Rf - IZR s * bpow rB e) <=
+   (bpow rNB (1 - p) * (1 + en / (D * D)) + en / (D * D)) * Rabs (IZR s * bpow rB e))%R.
+Proof. exact convert_large_route_error. Qed.
+Print Assumptions C08_convert_large_route_error.
+
+(** the executable test the oracle uses for the answers of this route decides exactly that bound *)
+Theorem C08_large_route_check_sound : forall (rNB : radix) k B p e N Dv rs re, 0 < Dv -> 1 <= p ->
+  large_route_check k B rNB p e N Dv rs re = Some true ->
+  let D := IZR (lr_D rNB p) in let en := IZR (lr_en k B rNB p e) in
+  (Rabs (IZR rs * bpow rNB re - IZR N / IZR Dv) <=
+   (bpow rNB (1 - p) * (1 + en / (D * D)) + en / (D * D)) * Rabs (IZR N / IZR Dv))%R.
+Proof. exact large_route_check_sound. Qed.
+Print Assumptions C08_large_route_check_sound.
+
+(** the answers that can differ from the correctly rounded one: where the (monotone) final rounding is constant on
+    an interval that contains the exact value and the pre-rounded one, the route returns the rounding of the
+    exact value - so only exact values within eps * |V| of a jump of the rounding function (every representable
+    value, for the directed modes) can come back one unit off *)
+Theorem C08_large_route_correct_away_from_boundaries : forall (LB LN e q E s : R) (rnd : R -> R) lo hi,
+  (forall x y, (x <= y)%R -> (rnd x <= rnd y)%R) -> rnd lo = rnd hi ->
+  (lo <= s * exp (e * LB) <= hi)%R -> (lo <= s * E * exp (q * LN) <= hi)%R ->
+  rnd (s * E * exp (q * LN))%R = rnd (s * exp (e * LB))%R.
+Proof. exact route_correct_away_from_boundaries. Qed.
+Print Assumptions C08_large_route_correct_away_from_boundaries.
 
 (** ** import of IEEE floats: TryFrom<f32/f64> for Repr<2> / FBig<R,2> as written (the decoder is C06's as-is
     model of f32::decode / f64::decode, proved there) = the specification, which is exact: for every bit
